@@ -109,6 +109,9 @@ def interface_text(cs, r):
         lines += text
     lines.append('int free_g(int x, int y);')
     lines.append('namespace ns { int free_f(int x); }')
+    # the same function name in a nested namespace and in a top-level namespace named like its innermost component
+    lines.append('namespace geo { namespace util { int free_h(int x); } }')
+    lines.append('namespace util { int free_h(int x); }')
     return '\n'.join(lines) + '\n'
 
 
@@ -168,6 +171,8 @@ def library_text(cs):
                          % (c.cpp, c.cpp, cs[x].name, c.cpp, cs[x].name, c.cpp, cs[x].cpp))
     o.append('inline int free_g(int x, int y) { vlib::log("free_g x=" + vlib::S(x) + " y=" + vlib::S(y)); return x * 7 + y; }')
     o.append('namespace ns { inline int free_f(int x) { vlib::log("ns::free_f x=" + vlib::S(x)); return x * 5 + 1; } }')
+    o.append('namespace geo { namespace util { inline int free_h(int x) { vlib::log("geo::util::free_h x=" + vlib::S(x)); return x * 11 + 2; } } }')
+    o.append('namespace util { inline int free_h(int x) { vlib::log("util::free_h x=" + vlib::S(x)); return x * 13 + 3; } }')
     return '\n'.join(o) + '\n'
 
 
@@ -210,7 +215,8 @@ def parse_toolbox(tree, cs):
             e['set'][m.group(1)] = int(m.group(2))
         tab[c.idx] = e
     funs = {}
-    for path, name in (('free_g.m', 'free_g'), ('+ns/free_f.m', 'free_f')):
+    for path, name in (('free_g.m', 'free_g'), ('+ns/free_f.m', 'free_f'), ('+geo/+util/free_h.m', 'geo_free_h'),
+                       ('+util/free_h.m', 'util_free_h')):
         t = tree.get(path)
         if t is None:
             raise LookupError('no function file ' + path)
@@ -393,8 +399,12 @@ class Session:
         x, y = self.r.randint(-99, 99), self.r.randint(-99, 99)
         if k < 0.3:
             self.emit('fcall %d 2 %d %d' % (self.funs[('free_g', 2)], x, y), None, str(x * 7 + y), ['free_g x=%d y=%d' % (x, y)])
-        elif k < 0.6:
+        elif k < 0.5:
             self.emit('fcall %d 1 %d' % (self.funs[('free_f', 1)], x), None, str(x * 5 + 1), ['ns::free_f x=%d' % x])
+        elif k < 0.6:
+            self.emit('fcall %d 1 %d' % (self.funs[('geo_free_h', 1)], x), None, str(x * 11 + 2), ['geo::util::free_h x=%d' % x])
+        elif k < 0.65:
+            self.emit('fcall %d 1 %d' % (self.funs[('util_free_h', 1)], x), None, str(x * 13 + 3), ['util::free_h x=%d' % x])
         else:
             c = self.r.choice(self.cs)
             sid = self.tab[c.idx]['statics'][('sfun_' + c.name, 1)]
